@@ -140,5 +140,5 @@ class LabelWriteHandler(AbstractWriteHandler):
         raise ValueError("After a label there must be exactly 1 opcode.")
 
     def _write_label(self, label: SsbLabel) -> None:
-        self.decompiler.write_stmnt(f"@label_{label.id};")
+        self.decompiler.write_label(label.id)
         self.decompiler.labels_already_printed.append(label.id)
